@@ -5,7 +5,7 @@ from ..lib import wellformed
 
 ID = 'C06'
 _lib = {}
-BOUNDS = {'ParCons': 80, 'ParCons(b=0)': 0, 'ParCons(b=1,KwikSort)': 1, 'ParCons(b=2,Copeland)': 2,
+BOUNDS = {'ParCons(b=3,Copeland)': 3, 'ParCons(b=3,Borda)': 3, 'ParCons': 80, 'ParCons(b=0)': 0, 'ParCons(b=1,KwikSort)': 1, 'ParCons(b=2,Copeland)': 2,
           'ParCons(b=0,KwikSort)': 0, 'ParCons(b=0,Copeland)': 0, 'ParCons(b=2)': 2, 'ParCons(b=3,KwikSort)': 3}
 
 
@@ -13,16 +13,21 @@ def plan(tier, seed):
     alt = spaces.label_choices(seed, 1)[0]
     if tier == 'quick':
         by_mode = {
-            'absent': [dict(n=3, m=2, labels='ints', schemes='three', configs='parcons_fast'),
-                       dict(n=3, m=3, labels='ints', schemes='three', configs='parcons_fast', per=60, partition=True),
+            'absent': [dict(n=3, m=2, labels='ints', schemes='three_t', configs='parcons_fast'),
+                       dict(n=3, m=3, labels='ints', schemes='three_t', configs='parcons_fast', per=60, partition=True),
+                       dict(space='ext43', labels='ints', schemes='ext', configs='parcons_fast', per=300, partition=True),
                        dict(n=3, m=2, labels='ints', schemes='three', configs='others_fast', flags='one'),
                        dict(n=3, m=2, labels='ints', schemes='one', configs='parcons_cbc', per=6),
-                       dict(n=4, m=2, labels='ints', schemes='two', configs='none', per=100, partition=True)],
+                       dict(n=4, m=2, labels='ints', schemes='two_t', configs='none', per=100, partition=True)],
             'absent_enum': [dict(n=3, m=2, labels='ints', schemes='six', configs='solver'),
                             dict(n=3, m=3, labels='ints', schemes='three', configs='parcons_solver', per=60),
-                            dict(n=3, m=2, labels=alt, schemes='two', configs='solver')],
+                            dict(n=3, m=2, labels=alt, schemes='two', configs='solver'),
+                            dict(space='ext43', labels='ints', schemes='ext', configs='parcons_solver', per=300),
+                            dict(space='family7', labels='ints', schemes='ext', configs='parcons_b3', flags='one'),
+                            dict(space='family7', labels='ints_rev', schemes='ext1', configs='parcons_b3', flags='one')],
             'stub': [dict(n=3, m=2, labels='ints', schemes='six', configs='solver'),
-                     dict(n=3, m=3, labels='ints', schemes='three', configs='parcons_solver', per=60)],
+                     dict(n=3, m=3, labels='ints', schemes='three', configs='parcons_solver', per=60),
+                     dict(space='ext43', labels='ints_rev', schemes='ext', configs='parcons_solver', per=300)],
         }
     else:
         by_mode = {
@@ -59,6 +64,7 @@ def init_worker(cfg):
     _lib['parcons_fast'] = [c for c in par if 'fast' in c.tags]
     _lib['parcons_cbc'] = [c for c in par if 'cbc' in c.tags]
     _lib['parcons_solver'] = [c for c in par if 'enum' in c.tags or 'cbc' in c.tags]
+    _lib['parcons_b3'] = [c for c in par if 'b3' in c.tags or c.name in ('ParCons', 'ParCons(b=2)', 'ParCons(b=0)')]
     _lib['solver'] = [c for c in allc if 'enum' in c.tags or 'cbc' in c.tags]
     _lib['others_fast'] = [c for c in allc if 'fast' in c.tags and 'parcons' not in c.tags]
     from corankco.partitioning.ordered_partition import OrderedPartition
@@ -123,6 +129,9 @@ def check_partition(ctx, ds, lname, n, s):
 def oracle(ctx, info):
     name = info.cfg.name
     is_parcons = 'parcons' in info.cfg.tags
+    if info.status == 'refused' and ({'needs_borda', 'needs_pick'} & info.cfg.tags):
+        ctx.count('documented_refusal_of_the_auxiliary_algorithm')
+        return
     if info.status != 'ok':
         if is_parcons:
             ctx.violation('parcons-raises' if info.status == 'exc' else 'parcons-' + info.status, info.case(), None, None,
@@ -185,6 +194,8 @@ def oracle(ctx, info):
         ctx.violation('optimality-flag-wrong', info.case(result=got[0], groups=groups, delegated=delegated), flag, want)
     if delegated:
         ctx.count('runs_with_a_delegated_component')
+        if any(not can_all_tie(g, info.ref.table) and 1 < len(g) <= bound for g in groups):
+            ctx.count('runs_with_a_delegated_AND_an_exactly_solved_component')
     if any(len(r) == 0 or not any(set(b) & set(g) for b in r) for r in info.ds for g in groups):
         ctx.count('runs_where_a_ranking_misses_a_whole_component')
     if len(groups) > 1 and any(len(g) > 1 for g in groups):
@@ -233,5 +244,6 @@ def summarize(tier, seed, merged, phases):
     guards = [('partitions with several groups', c.get('partitions_with_several_groups', 0)),
               ('delegated component', c.get('runs_with_a_delegated_component', 0)),
               ('ranking misses a component', c.get('runs_where_a_ranking_misses_a_whole_component', 0)),
-              ('flagged optimal', c.get('results_flagged_optimal', 0))]
+              ('flagged optimal', c.get('results_flagged_optimal', 0)),
+              ('delegated and exactly solved components together', c.get('runs_with_a_delegated_AND_an_exactly_solved_component', 0))]
     return cov, ['stand-ins as in C05'], guards
